@@ -87,6 +87,16 @@ out["prefix_matches"] = sorted(
     [c.__name__, c._class_prefix(), bool(c._has_number()), int(c._has_classifier())] for c in dp.PREFIX_MATCHES)
 from montepy.particle import Particle
 out["particle_enum"] = sorted(p.value.lower() for p in Particle)
+# two spellings of numbers that the model's [lex_safe] excludes from the lexer comparison while the source mis-lexes them
+import re as _re
+from montepy.utilities import fortran_float
+_z = [p for n, p in tokens.MCNP_Lexer._rules if n == "ZAID"]
+_zp = _z[0] if isinstance(_z[0], str) else _z[0].pattern
+out["zaid_rule_stops_before_exponent"] = _re.match(_zp, "1234.56e1", tokens.MCNP_Lexer.reflags) is None
+try:
+    out["fortran_exponent_after_point"] = fortran_float("5.+3") == 5000.0
+except ValueError:
+    out["fortran_exponent_after_point"] = False
 print(json.dumps(out))
 '''
 
@@ -102,51 +112,52 @@ def _dump():
 
 # ---------------------------------------------------------------------------- ast part
 def _dispatch_mode():
-    """How Cell._parse_keyword_modifiers decides that a parameter key belongs to a modifier class.
-    Recognised: `... and prefix in key.lower()` -> 'substring';  `... and prefix == <expr>` -> 'equality'."""
+    """How Cell._parse_keyword_modifiers decides that a parameter belongs to a modifier class: the `if` whose test is
+    `input_class in Cell._INPUTS_TO_PROPERTY and <comparison of the class prefix>`.
+    Recognised comparisons: `prefix in <expr>` -> 'substring';  `prefix == <expr>` / `<expr> == prefix` -> 'equality'
+    (prefix = a name bound to `input_class._class_prefix()`, or that call itself).  Anything else raises."""
     path = os.path.join(vlib.REPO, "montepy", "cell.py")
-    tree = ast.parse(open(path).read())
+    with open(path) as fh:
+        tree = ast.parse(fh.read())
     fn = None
     for node in ast.walk(tree):
         if isinstance(node, ast.FunctionDef) and node.name == "_parse_keyword_modifiers":
             fn = node
     if fn is None:
         raise RuntimeError("translate_grammar: Cell._parse_keyword_modifiers not found")
-    # the name bound to input_class._class_prefix()
-    pname = None
+    pnames = set()
     for node in ast.walk(fn):
         if (isinstance(node, ast.Assign) and isinstance(node.value, ast.Call)
                 and isinstance(node.value.func, ast.Attribute) and node.value.func.attr == "_class_prefix"
                 and len(node.targets) == 1 and isinstance(node.targets[0], ast.Name)):
-            pname = pname or node.targets[0].id
-    if pname is None:
-        raise RuntimeError("translate_grammar: no `x = input_class._class_prefix()` in _parse_keyword_modifiers")
+            pnames.add(node.targets[0].id)
+
+    def is_prefix(e):
+        if isinstance(e, ast.Name) and e.id in pnames:
+            return True
+        return isinstance(e, ast.Call) and isinstance(e.func, ast.Attribute) and e.func.attr == "_class_prefix"
+
+    def is_membership(c):
+        return (isinstance(c, ast.Compare) and len(c.ops) == 1 and isinstance(c.ops[0], ast.In)
+                and "_INPUTS_TO_PROPERTY" in ast.unparse(c.comparators[0]))
     modes = []
     for node in ast.walk(fn):
-        if isinstance(node, ast.If):
-            for c in ast.walk(node.test):
-                if isinstance(c, ast.Compare) and len(c.ops) == 1:
-                    names = {n.id for n in ast.walk(c) if isinstance(n, ast.Name)}
-                    if pname in names and "key" in {n.id for n in ast.walk(c) if isinstance(n, ast.Name)} | names:
-                        left_is_prefix = isinstance(c.left, ast.Name) and c.left.id == pname
-                        if isinstance(c.ops[0], ast.In) and left_is_prefix:
-                            modes.append("substring")
-                        elif isinstance(c.ops[0], ast.Eq):
-                            modes.append("equality")
-                        else:
-                            raise RuntimeError("translate_grammar: unrecognised prefix test " + ast.dump(c))
-            if modes:
-                break
+        if isinstance(node, ast.If) and isinstance(node.test, ast.BoolOp) and isinstance(node.test.op, ast.And) \
+                and any(is_membership(v) for v in node.test.values):
+            for c in node.test.values:
+                if is_membership(c):
+                    continue
+                if not (isinstance(c, ast.Compare) and len(c.ops) == 1):
+                    raise RuntimeError("translate_grammar: unrecognised dispatch test " + ast.unparse(c))
+                op, left, right = c.ops[0], c.left, c.comparators[0]
+                if isinstance(op, ast.In) and is_prefix(left):
+                    modes.append("substring")
+                elif isinstance(op, ast.Eq) and (is_prefix(left) or is_prefix(right)):
+                    modes.append("equality")
+                else:
+                    raise RuntimeError("translate_grammar: unrecognised dispatch test " + ast.unparse(c))
     if len(modes) != 1:
-        # an equality test may compare against the classifier prefix rather than `key`
-        for node in ast.walk(fn):
-            if isinstance(node, ast.Compare) and len(node.ops) == 1:
-                names = [n.id for n in ast.walk(node) if isinstance(n, ast.Name)]
-                if pname in names and isinstance(node.ops[0], (ast.Eq, ast.In)):
-                    modes = ["equality" if isinstance(node.ops[0], ast.Eq) else "substring"]
-                    break
-    if len(modes) != 1:
-        raise RuntimeError("translate_grammar: cannot find the prefix/key comparison in _parse_keyword_modifiers")
+        raise RuntimeError("translate_grammar: cannot find the prefix comparison in Cell._parse_keyword_modifiers (%r)" % modes)
     return modes[0]
 
 
@@ -276,6 +287,9 @@ def tables_v(d, mode, ppm):
     out.append("(* DataInput._load_correct_parser: prefix -> parser class *)")
     out.append("Definition parser_prefix_map : list (string * string) := %s." % clist(
         ["(%s, %s)" % (cs(a), cs(b)) for a, b in ppm], 1))
+    out.append("(* does the ZAID rule of the lexer leave 1234.56e1 to the NUMBER rule?  does fortran_float read 5.+3? *)")
+    out.append("Definition zaid_rule_stops_before_exponent : bool := %s." % ("true" if d["zaid_rule_stops_before_exponent"] else "false"))
+    out.append("Definition fortran_exponent_after_point : bool := %s." % ("true" if d["fortran_exponent_after_point"] else "false"))
     out.append("(* Cell._parse_keyword_modifiers: true = `prefix in key.lower()` (substring), false = equality *)")
     out.append("Definition cell_dispatch_by_substring : bool := %s." % ("true" if mode == "substring" else "false"))
     return "\n".join(out) + "\n"
